@@ -56,6 +56,8 @@ def scenarios(rep, tier, seed):
         scn["history"] = ["reload"] if i % 3 else ["prepredict", "reload"]
         scn["prefit"] = None
         scns.append(scn)
+    # integer-typed training samples, real-valued validation samples and queries
+    scns += K.mixed_dtype_scenarios(random.Random(seed * 1000003 + 1415), 120 if thorough else 30)
     # KNN-supervised on pre-computed matrices with permuted index arrays (queries = rows of the matrix)
     for i in range(400 if thorough else 60):
         scn = K.knn_pre_scenario(rng, metric=rng.choice(mets), lattice=(i % 3 == 0))
